@@ -45,6 +45,11 @@ MENU = [
     obj("2.0", 17, "mutate", [[1], {"k": [2]}, {"__jsonclass__": ["mc.ref.beans.Plain", []], "items": [3]}]),  # the callee modifies the containers it receives
 ]
 TEXTS = [m if isinstance(m, str) else B.dumps(m) for m in MENU]
+# requests used only by the concurrent leg (indices beyond the menu)
+EXTRA = [obj(ABSENT, "s1", "sharedfault", []), obj("2.0", "s2", "sharedfault"), obj("2.0", 0, "sharedfault")]
+NMENU = len(MENU)
+TEXTS += [B.dumps(m) for m in EXTRA]
+S1, S2, S3 = NMENU, NMENU + 1, NMENU + 2
 
 
 class InlinePool(object):
@@ -133,7 +138,7 @@ def _restore_default(s):
 
 
 def history_cases(tier):
-    n = len(MENU)
+    n = NMENU
     depth = 4 if tier == "thorough" else 3
     for k in range(1, depth + 1):
         for hist in itertools.product(range(n), repeat=k):
@@ -154,7 +159,7 @@ BIG_FILLERS = [
 
 
 def long_cases(tier):
-    n = len(MENU)
+    n = NMENU
     for last in range(n):
         for filler in range(n):
             yield ("repeat", 130, filler, last)
@@ -336,6 +341,8 @@ def leg_copy(part, tier, shard, nshards):
 
 PAIRS = [(0, 1), (0, 4), (2, 8), (1, 0), (10, 1), (12, 0), (8, 9), (5, 2), (13, 1), (15, 0)]
 TRIPLES = [(0, 1, 4), (2, 8, 10)]
+# a method that returns one shared Fault object, asked concurrently with different ids and forms
+PAIRS += [(S1, S2), (S2, S3), (13, S2)]
 
 
 class ConcHarness(object):
